@@ -152,8 +152,8 @@ Proof.
   assert (Cp : wf_opF c st a o -> forall i0 inb usefd ip, o = OOpenConn i0 inb usefd (Some ip) -> snd (step c st o) = 0 ->
             cap_ok c (open_ips (anextT c st a o) false) ip = true).
   { intros Wf. destruct IG as (IL & _ & _ & _ & Ci). apply (cap_step c st a o LO IL Ci). destruct o; exact Wf. }
-  assert (As : wf_opF c st a o -> answer_ok a o (snd (step c st o)) = true).
-  { intros Wf. destruct IG as (IL & _). apply (ans_step c st a o LO IL). destruct o; exact Wf. }
+  assert (As : wf_opF c st a o -> answer_ok c a o (snd (step c st o)) = true).
+  { intros Wf. destruct IG as (IL & _ & _ & _ & Ci). apply (ans_step c st a o LO IL Ci). destruct o; exact Wf. }
   destruct (step c st o) as [st' cls] eqn:Es. cbn [fst snd] in Hi, Cp, Js, As.
   cbn [callers_run mon_run_gen] in *.
   destruct (caller_ok a o && no_overflow m o) eqn:C; [|discriminate].
